@@ -21,7 +21,8 @@ EXPLANATION = (
     "execution_complete and nothing else; a complete order leaves the live list under a membership test; a "
     "bet id comes from the stream only for async placements (C03-R5); an update whose bet id differs from "
     "the order's is routed through the bet-id index (replacement orders) or dropped; (R5) reconciliation "
-    "runs before strategy.process_orders in the same event, for every strategy with orders in an open market. "
+    "runs before strategy.process_orders in the same event, for every strategy with orders in an open market; "
+    "(R6) a Market object is created only on a registry miss for its id. "
     "Not decided: convergence under all interleavings, restart equivalence of exposure."
 )
 
@@ -198,6 +199,38 @@ def run(ctx, rep):
     rep.check(good, "R4", key(pco, None, "an update for another bet id of the same reference is routed through the bet-id index"), pco,
               None, "a replace keeps the customer reference and issues a new bet id")
 
+    # ------------------------------------------------------------------ R6 one Market object per id
+    # a Market is created only when the registry lookup for that id missed: a second object for a known
+    # id is not registered (Markets.add_market keeps the first) and carries an empty blotter, so adopted
+    # orders vanish from what the strategies and controls see
+    n6 = 0
+    adders = [prog.own_method("BaseFlumine", "_add_market")]
+    for fn in prog.all_functions():
+        cfgx = None
+        for c in walk_calls(fn.node.body):
+            nm = call_name(c)
+            is_add = (nm == "_add_market" and isinstance(c.func, ast.Attribute)) or (
+                isinstance(c.func, ast.Name) and c.func.id == "add_market" and "add_market" in fn.params)
+            if not is_add:
+                continue
+            n6 += 1
+            cfgx = cfgx or ctx.cfg(fn)
+            node = [x for x in cfgx.live_nodes() if c in walk_calls(x.exprs)][0]
+            miss = False
+            for g, pol in cfgx.guards(node.id):
+                t = utext(g.exprs[0])
+                if isinstance(g.exprs[0], ast.Name):
+                    d = [s for s in walk_nodes(fn.node.body, ast.Assign) if utext(s.targets[0]) == t]
+                    if len(d) == 1:
+                        t = utext(d[0].value)
+                if pol and t == "market is None":
+                    dm = [s for s in walk_nodes(fn.node.body, ast.Assign) if utext(s.targets[0]) == "market"
+                          and isinstance(s.value, ast.Call) and call_name(s.value) == "get"]
+                    miss = bool(dm)
+            rep.check(miss, "R6", key(fn, c, "a Market is created only when the registry has none for that id"), fn, c,
+                      "creating a second Market for a registered id hands the strategies an object with an empty blotter")
+    rep.floor("R6", "market creation sites", n6, 3)
+
     # ------------------------------------------------------------------ R5 reconcile, then strategies
     f = prog.own_method("BaseFlumine", "_process_current_orders")
     cfgf = ctx.cfg(f)
@@ -226,6 +259,9 @@ def run(ctx, rep):
 
 _P = "flumine/order/process.py"
 MUTANTS = [
+    dict(id="c11-second-market-object", file="flumine/baseflumine.py", func="BaseFlumine._process_market_books",
+         old="            market_is_new = market is None\n", new="            market_is_new = market is None or market.market_book is None\n",
+         expect=["R6"], why="a market adopted from the order stream is replaced by a fresh object with an empty blotter"),
     dict(id="c11-adopt-without-miss", file=_P, func="process_current_orders",
          old="            if order is None:\n                logger.warning(", new="            if order is None or not order.bet_id:\n                logger.warning(",
          expect=["R2"], why="known orders adopted again"),
